@@ -106,6 +106,8 @@ pub struct TransformerContext {
     pending_ids: HashSet<String>,
     /// ids of elements which have been evaluated successfully at least once
     completed_ids: HashSet<String>,
+    /// number of elements of the output whose content is being processed
+    open_output_elements: u32,
     /// Stack of elements which have been started but not yet ended
     ///
     /// Note empty elements are normally not pushed onto the stack,
@@ -139,6 +141,7 @@ impl Default for TransformerContext {
             original_map: HashMap::new(),
             pending_ids: HashSet::new(),
             completed_ids: HashSet::new(),
+            open_output_elements: 0,
             element_stack: Vec::new(),
             prev_element: None,
             scope_stack: Vec::new(),
@@ -493,9 +496,18 @@ impl TransformerContext {
         self.current_depth == 0
     }
 
-    /// True when processing an element which is inside another element
+    /// True when processing an element which is inside another element of the
+    /// output (rather than merely inside an <if> or <loop>, which leave no trace there)
     pub fn is_nested(&self) -> bool {
-        self.current_depth > 1
+        self.open_output_elements > 0
+    }
+
+    /// Process the content of an element which is written to the output.
+    pub fn within_output_element<T>(&mut self, content: impl FnOnce(&mut Self) -> T) -> T {
+        self.open_output_elements += 1;
+        let result = content(self);
+        self.open_output_elements -= 1;
+        result
     }
 
     pub fn get_top_element(&self) -> Option<SvgElement> {
